@@ -20,6 +20,13 @@ class MemWatch(threading.Thread):
         while not self.stop:
             try:
                 out = subprocess.run(['ps', '-eo', 'pid,rss,comm'], capture_output=True, text=True).stdout
+                avail = 1 << 40
+                for ml in open('/proc/meminfo'):
+                    if ml.startswith('MemAvailable:'): avail = int(ml.split()[1])
+                if avail < 5 * 1024 * 1024:
+                    # machine-wide emergency (no swap): kill the largest cbmc, whoever started it
+                    big = sorted(((int(l.split()[1]), l.split()[0]) for l in out.split('\n')[1:] if len(l.split()) >= 3 and l.split()[2].startswith('cbmc')), reverse=True)
+                    if big: subprocess.run(['kill', '-9', big[0][1]]); self.killed.append(int(big[0][1]))
                 for ln in out.split('\n')[1:]:
                     p = ln.split()
                     if len(p) >= 3 and p[2].startswith('cbmc'):
